@@ -119,6 +119,9 @@ def pw(x, o):
         # python gives a complex number here; every athlib use feeds it to int() next
         raise TypeError("int() argument must be a string, a bytes-like object or a real number, not 'complex'")
     if x.ieee:
+        # pow is uninterpreted here: a model may give it any value, so a candidate that does not reproduce is excluded and another one
+        # requested (harness/hc.py), instead of ending the run at the first one
+        E.cur().overapprox_used = True
         return SymFloat(PWF(x.term, fpval(float(o))))
     eng = E.cur()
     e = realval(float(o))
